@@ -5,6 +5,7 @@ package interp
 
 import (
 	"fmt"
+	"os"
 	"go/types"
 	"strings"
 	"unicode/utf8"
@@ -212,9 +213,12 @@ type omapIter struct {
 
 func (m *omap) iterator(i *interpreter) iter {
 	it := &omapIter{i: i, m: m}
-	if i.path != nil && i.path.permute && m != nil && m.live > 1 {
+	if i.path != nil && i.path.permute && m != nil && m.live > 1 && m.live <= 3 && inConsulCode(i.curFn) {
 		it.perm = true
 		it.seen = map[*mapEntry]bool{}
+		if debugConc && i.curFn != nil {
+			fmt.Fprintf(os.Stderr, "permuted range in %s (%d entries)\n", i.curFn, m.live)
+		}
 	}
 	return it
 }
@@ -475,4 +479,18 @@ func (i *interpreter) goIgnored(callee, caller string) bool {
 		}
 	}
 	return false
+}
+
+// inConsulCode: map-order permutation is applied to range statements written
+// in the repository's own packages (library internals such as go-memdb and
+// go-immutable-radix iterate maps in ways that are order-insensitive by design).
+func inConsulCode(fn *ssa.Function) bool {
+	if fn == nil {
+		return false
+	}
+	p := fn.Package()
+	if p == nil || p.Pkg == nil {
+		return false
+	}
+	return strings.HasPrefix(p.Pkg.Path(), "github.com/hashicorp/consul/")
 }
